@@ -17,7 +17,7 @@ META = {
                     'no bust_cache together with failures (an older entry of a failed task would remain)'],
     'tiers': {
         'quick': {'shards': 16, 'budget_s': 45, 'n_sim': 2400, 'n_real': 260},
-        'thorough': {'shards': 16, 'budget_s': 330, 'n_sim': 40000, 'n_real': 3000},
+        'thorough': {'shards': 16, 'budget_s': 330, 'n_sim': 40000, 'n_real': 3000, 'n_exhaustive_specs': 400},
     },
 }
 
@@ -135,9 +135,37 @@ def judge(rep, scn, out):
     return bool(failing) and len(E - tainted) >= 1
 
 
+def exhaustive_failing_subsets(rep, n_specs):
+    """Every failing subset (2^n - 1) of small DAGs, sim backend, one fault kind per subset."""
+    import itertools
+    from vlab import engine
+    from vlab.dagcommon import gen_dag_scenario, scenario_rng, scn_key
+    for j in range(rep.shard, n_specs, rep.nshards):
+        if rep.expired():
+            rep.count('skipped_for_time')
+            return
+        rng = scenario_rng(rep.seed, 'C10exh', j)
+        base = gen_dag_scenario(rng, backend='sim', nmax=rng.choice([3, 4, 5]), precache=False, fresh=False,
+                                shape=rng.choice(['diamond', 'layered', 'chain', 'fanin', 'fanout']))
+        base['bust'] = False
+        names = list(base['spec']['tasks'])[:6]
+        for r in range(1, len(names) + 1):
+            for sub in itertools.combinations(names, r):
+                scn = dict(base, failing={n: rng.choice(KINDS['sim']) for n in sub}, cof=rng.random() < 0.8,
+                           sched_seed=rng.randrange(1 << 30))
+                out = engine.run_dag(scn)
+                if getattr(out, 'aborted', None) and not out.aborted.startswith('spin'):
+                    rep.inconclusive(f'harness abort: {out.aborted[:100]}', {'scenario': scn})
+                    continue
+                rep.case(scn_key(scn), judge(rep, scn, out))
+                rep.count('exhaustive_failing_subset_runs')
+        rep.count('specs_with_all_failing_subsets')
+
+
 def run_shard(rep):
     from vlab.props.dagprop import drive
     cfg = META['tiers'][rep.tier]
+    exhaustive_failing_subsets(rep, cfg.get('n_exhaustive_specs', 16))
     rep.require('failing_tasks', 500)
     rep.require('post_raise_windows_observed', 50)
     rep.require('untainted_values_checked', 500)
